@@ -57,6 +57,53 @@ Proof.
   - destruct n as [|n]; [by destruct k|]. destruct k as [|k]; [done|]. cbn. apply IH.
 Qed.
 
+(* ---------- a hash names one chain ---------- *)
+Lemma parent_ok_prefix parent (l : list Z) x : parent_ok parent (l ++ [x]) -> parent_ok parent l.
+Proof.
+  intros Hp i a b Ha Hb. apply (Hp i a b).
+  - rewrite lookup_app_l; [done|]. by apply lookup_lt_Some in Ha.
+  - rewrite lookup_app_l; [done|]. by apply lookup_lt_Some in Hb.
+Qed.
+
+Lemma parent_ok_last parent (l : list Z) y x : parent_ok parent (l ++ [y] ++ [x]) -> parent x = y.
+Proof.
+  intros Hp. apply (Hp (length l) y x).
+  - rewrite lookup_app_r by lia. by rewrite Nat.sub_diag.
+  - rewrite lookup_app_r by lia. replace (S (length l) - length l)%nat with 1%nat by lia. done.
+Qed.
+
+Lemma head_snoc_ne (l : list Z) x : l <> [] -> head (l ++ [x]) = head l.
+Proof. by destruct l. Qed.
+
+(* two chains from the same genesis block that end in the same block are
+   the same chain *)
+Lemma chain_determined parent g (l1 : list Z) : forall l2,
+  parent_ok parent l1 -> parent_ok parent l2 -> NoDup l1 -> NoDup l2 ->
+  head l1 = Some g -> head l2 = Some g -> last l1 = last l2 -> l1 = l2.
+Proof.
+  induction l1 as [|x l1 IH] using rev_ind; intros l2 Hp1 Hp2 Hn1 Hn2 Hh1 Hh2 Hl; [done|].
+  destruct l2 as [|x2 l2 _] using rev_ind; [done|].
+  rewrite !last_snoc in Hl. injection Hl as <-.
+  assert (Hsingle : forall l : list Z, NoDup (l ++ [x]) -> head (l ++ [x]) = Some x -> l = []).
+  { intros l Hn Hh. destruct l as [|y l]; [done|]. cbn in Hh. injection Hh as ->.
+    apply NoDup_app in Hn as (_ & Hn & _). exfalso. apply (Hn x); [by left|by left]. }
+  destruct l1 as [|y1 l1 _] using rev_ind.
+  { cbn in Hh1. injection Hh1 as <-. by rewrite (Hsingle l2 Hn2 Hh2). }
+  destruct l2 as [|y2 l2 _] using rev_ind.
+  { cbn in Hh2. injection Hh2 as <-. rewrite (Hsingle (l1 ++ [y1]) Hn1 Hh1). done. }
+  f_equal.
+  pose proof (parent_ok_last parent l1 y1 x ltac:(by rewrite <- app_assoc in Hp1)) as E1.
+  pose proof (parent_ok_last parent l2 y2 x ltac:(by rewrite <- app_assoc in Hp2)) as E2.
+  apply IH.
+  - by apply parent_ok_prefix in Hp1.
+  - by apply parent_ok_prefix in Hp2.
+  - by apply NoDup_app in Hn1 as (Hn1 & _).
+  - by apply NoDup_app in Hn2 as (Hn2 & _).
+  - rewrite head_snoc_ne in Hh1; [done|by destruct l1].
+  - rewrite head_snoc_ne in Hh2; [done|by destruct l2].
+  - rewrite !last_snoc. congruence.
+Qed.
+
 (* ---------- the view of the two lists ---------- *)
 Lemma last_default_zget (l : list Z) : l <> [] -> zlen l < 1000000 ->
   zget l (zlen l - 1) = Some (default 0 (last l)).
